@@ -8,6 +8,11 @@ ALL = [f'C{i:02d}' for i in range(1, 21)]
 
 # id -> (level text, level note, technique, design ref)
 CHECKS = {
+    'C08': (
+        'Bounded-exhaustive exploration of the real simplify(): every well-sorted term up to the node bound (quick 5, thorough 6) plus shape-directed families per visible shortcut, each evaluated before and after on every valuation of a small grid, under every iteration order the code can obtain from set() (deviation-bounded). Complete within the stated bounds; says nothing about larger terms or values outside the grid.',
+        'Reference evaluator (exact rationals / python floats; set or bag reading of set literals; integer points of ranges) is the trusted oracle; a mismatch counts only if it persists under every admissible reading.',
+        'bounded exhaustive term x valuation x set-order enumeration against a reference evaluator',
+    ),
     'C20': (
         'Complete enumeration of the finite space: all 128 type sets, all 16 384 pairs and all 2 097 152 triples are run through the real DataType API and compared with a frozenset model; nothing is left outside the bound.',
         "Trusts CPython's enum.Flag operators for converting results back to name sets.",
